@@ -248,6 +248,19 @@ def run_property(pid, tier, modname, cases, opts=None, level="model_checking", a
                       default=str)
         ok, out = replay_file(path)
         seen_sig.add(sig)
+        if ok and 'realising a symbolic real' in str(v['what']):
+            # concrete fall-back (see vf/replay.py): report the claim the real code failed, not the symbolic-execution limit
+            import re
+            mo = re.search(r"REPRODUCED property=\S+ signature=(\S+)", out)
+            mw = re.search(r"^  what: (.*)$", out, re.M)
+            if mo:
+                sig = mo.group(1)
+                v = dict(v, what="(symbolic execution stopped at a float() of a symbolic value; concrete run of the case:) "
+                                 + (mw.group(1) if mw else ""))
+                k = match_known(pid, sig, known)
+                if sig in seen_sig:
+                    continue
+                seen_sig.add(sig)
         if ok:
             if k:
                 known_hits.append((k, sig, path))
